@@ -75,12 +75,10 @@ pub fn matches_dockerignore_filter(
     for dockerignore_filter in dockerignore_filters {
         let is_match = dockerignore_filter.regex.is_match(&file_name);
 
-        if is_match && dockerignore_filter.negate {
-            return false;
-        }
-
+        // the last pattern that matches decides: an exception (!pattern) can be overridden
+        // by a later pattern and only re-includes what an earlier pattern excluded
         if is_match {
-            matched = true;
+            matched = !dockerignore_filter.negate;
         }
     }
 
